@@ -1,4 +1,5 @@
 import SdcModel.UdpRepeat
+import SdcModel.Proofs.UdpRepeat
 import SdcModel.Generated.UdpParams
 /-!
 # C15 — discovery datagrams are retransmitted within the SOAP-over-UDP time envelope
@@ -8,67 +9,15 @@ Property theorems only. Model: `SdcModel/UdpRepeat.lean`; parameter sets: `Gener
 namespace Sdc.C15
 open Sdc.UdpRepeat
 
-/-- gap number `i` of a list of send times -/
-def gap (ts : List Nat) (i : Nat) : Option Nat :=
-  match ts[i]?, ts[i+1]? with
-  | some a, some b => some (b - a)
-  | _, _ => none
-
-theorem times_length (t : Nat) (gs : List Nat) : (times t gs).length = gs.length + 1 := by
-  induction gs generalizing t with
-  | nil => rfl
-  | cons g gs ih => simp [times, ih]
-
-theorem gaps_length (u d n : Nat) : (gaps u d n).length = n := by
-  induction n generalizing d with
-  | zero => rfl
-  | succ n ih => simp [gaps, ih]
-
 /-- exactly `1 + repeat` transmissions, for every parameter set and every outcome of the two draws -/
 theorem transmissions_count (p : Params) (init d : Nat) :
     (schedule p init d).length = 1 + p.repeats := by
   simp [schedule, times_length, gaps_length]; omega
 
-theorem times_head (t : Nat) (gs : List Nat) : (times t gs)[0]? = some t := by
-  cases gs <;> simp [times]
-
 /-- the first transmission is delayed by the drawn initial delay, which `randint(0, maxInit)` bounds -/
 theorem first_delay (p : Params) (init d : Nat) (h : init ≤ p.maxInit) :
     ∃ t, (schedule p init d)[0]? = some t ∧ t ≤ p.maxInit :=
   ⟨init, times_head _ _, h⟩
-
-theorem times_sorted_get (t : Nat) (gs : List Nat) (i : Nat) (g : Nat) (h : gs[i]? = some g) :
-    gap (times t gs) i = some g := by
-  induction gs generalizing t i with
-  | nil => simp at h
-  | cons g' gs ih =>
-    cases i with
-    | zero =>
-      simp at h; subst h
-      simp [gap, times, times_head]
-    | succ i =>
-      simp at h
-      have := ih (t + g') i h
-      simpa [gap, times] using this
-
-theorem gaps_get_zero (u d n : Nat) (h : 0 < n) : (gaps u d n)[0]? = some d := by
-  cases n with
-  | zero => omega
-  | succ n => simp [gaps]
-
-theorem gaps_get_succ (u d n i g : Nat) (h : (gaps u d n)[i]? = some g) (hi : i + 1 < n) :
-    (gaps u d n)[i+1]? = some (min (2 * g) u) := by
-  induction n generalizing d i with
-  | zero => omega
-  | succ n ih =>
-    cases i with
-    | zero =>
-      simp [gaps] at h; subst h
-      have : 0 < n := by omega
-      simpa [gaps] using gaps_get_zero u _ n this
-    | succ i =>
-      simp only [gaps, List.getElem?_cons_succ] at h ⊢
-      exact ih _ i h (by omega)
 
 /-- the first gap is the drawn value, which `randrange(min, max)` puts inside the window -/
 theorem first_gap (p : Params) (init d : Nat) (hr : 0 < p.repeats)
@@ -113,45 +62,6 @@ theorem generated_window_below_cap :
 
 /-! ### own messages are ignored when multicast loops them back -/
 
-theorem mem_take_push (maxlen k : Nat) (id x : String) (l : List String)
-    (h : id ∈ l.take k) (hk : k + 1 ≤ maxlen) : id ∈ (push maxlen x l).take (k + 1) := by
-  unfold push
-  rw [List.take_take]
-  have : min (k + 1) maxlen = k + 1 := by omega
-  rw [this, List.take_succ_cons]
-  exact List.mem_cons_of_mem _ h
-
-theorem mem_take_succ (id : String) (l : List String) (k : Nat) (h : id ∈ l.take k) : id ∈ l.take (k + 1) := by
-  induction l generalizing k with
-  | nil => simp at h
-  | cons x xs ih =>
-    cases k with
-    | zero => simp at h
-    | succ k =>
-      rw [List.take_succ_cons] at h ⊢
-      rcases List.mem_cons.mp h with h | h
-      · exact List.mem_cons.mpr (Or.inl h)
-      · exact List.mem_cons_of_mem _ (ih k h)
-
-theorem step_keeps (maxlen k : Nat) (id : String) (known : List String) (e : Ev)
-    (h : id ∈ known.take k) (hk : k + 1 ≤ maxlen) : id ∈ ((step maxlen known e).1).take (k + 1) := by
-  cases e with
-  | out x => exact mem_take_push maxlen k id x known h hk
-  | recv x =>
-    simp only [step]
-    split
-    · exact mem_take_succ id known k h
-    · exact mem_take_push maxlen k id x known h hk
-
-theorem run_keeps (maxlen : Nat) (id : String) (evs : List Ev) (known : List String) (k : Nat)
-    (h : id ∈ known.take k) (hk : k + evs.length ≤ maxlen) : id ∈ run maxlen known evs := by
-  induction evs generalizing known k with
-  | nil => exact List.mem_of_mem_take h
-  | cons e es ih =>
-    simp only [run]
-    have hk' : k + 1 ≤ maxlen := by simp at hk; omega
-    exact ih _ (k + 1) (step_keeps maxlen k id known e h hk') (by simp at hk; omega)
-
 /-- after `add_outbound_message` registered the own id, and while fewer than `maxlen` further ids were
     remembered, a looped-back datagram with that id is not dispatched -/
 theorem own_message_ignored (maxlen : Nat) (id : String) (known : List String) (evs : List Ev)
@@ -179,6 +89,7 @@ theorem dispatched_then_known (maxlen : Nat) (id : String) (known : List String)
 
 /-- non-vacuity: the multicast set with a concrete draw -/
 example : schedule Generated.multicast 17 120 = [17, 137, 377, 857, 1357] := by decide
+
 example : gap (schedule Generated.multicast 17 120) 3 = some 500 := by decide
 
 end Sdc.C15
